@@ -27,7 +27,7 @@ pub enum Case {
 }
 
 const TOK: &[&str] = &[
-  "A", "C", "D", "E", "g", "h", "/", "+", "9", "w", ",", ";", ";;", "AAAA", "AACA", "gB", "!", " ", "é", "\n", "=", "\u{0}",
+  "A", "C", "D", "E", "g", "h", "/", "+", "9", "w", ",", ";", ";;", "AAAA", "AACA", "gB", "!", " ", "é", "\n", "=", "\u{0}", "→", "€", "日", "😀", "\u{100}", "\u{ff}",
 ];
 
 fn mappings_strategy() -> BoxedStrategy<Case> {
